@@ -24,6 +24,15 @@ MAX_ABNORMAL = 12       # hang/crash events after which the remaining cases are 
 
 
 # ----------------------------------------------------------------------------------------
+def build(name):
+    """vlib.build, tried twice: objects shared with concurrently running builds of other checks can be mid-rewrite at link time"""
+    try:
+        return vlib.build(name)[name]
+    except vlib.MachineryError:
+        time.sleep(5)
+        return vlib.build(name)[name]
+
+
 def tables_of(r):
     m = re.search(r'<<"CFGLAYERS_TABLES", "((?:[^"\\]|\\.)*)">>', r.out)
     if not m:
@@ -163,7 +172,7 @@ def random_case(rng, cid):
 # ----------------------------------------------------------------------------------------
 def run_driver(lines, wd, tag, keep=False):
     """replay script lines on the real loader; restarts the driver after a hang/crash event.  Returns (trace path, events)"""
-    b = vlib.build("cfglayers")["cfglayers"]
+    b = build("cfglayers")
     trace = os.path.join(wd, "trace-%s.ndjson" % tag)
     open(trace, "w").close()
     done, abnormal, part = 0, 0, 0
@@ -386,7 +395,7 @@ def e2e_case(exe, e, kept, rundir, cwd, rng):
 
 def e2e(chk, tables, cases, base_id, n):
     rng = chk.rng
-    exe = vlib.build("ephcli")["ephcli"]
+    exe = build("ephcli")
     wd = vlib.workdir("cfglayers-%s-e2e" % chk.pid)
     withcfg = [k for k in cases if tables["shapes"][k["shape"]][k["mode"]]["config"]]
     okc = [k for k in withcfg if tables["shapes"][k["shape"]][k["mode"]]["status"] == "ok"]
